@@ -134,6 +134,17 @@ fn main() {
                         if i % 8 == 6 {
                             prog.push(ir::Top::Types(format!("Empty{i}"), vec![]));
                         }
+                        // attribute names equal to keys the serialised forms use themselves
+                        // (a flattened or renamed field would collide with them)
+                        if i % 8 == 7 {
+                            prog.push(ir::Top::Types(
+                                format!("Keys{i}"),
+                                ["name", "methods", "attributes", "type", "content", "attr_name", "attr_type"]
+                                    .iter()
+                                    .map(|k| (k.to_string(), ir::Ty::Prim(ir::PT::U8)))
+                                    .collect(),
+                            ));
+                        }
                         let (flags, canon, stacks) = watched(&prog, || codec::check(&prog));
                         writeln!(out, "G 1 {} seed={s}", profile).unwrap();
                         writeln!(out, "P {}", ir::w_prog(&prog)).unwrap();
